@@ -18,6 +18,8 @@ the probabilistic representation PT1.
 This file restates the theorems the property rests on (full statements; proofs are in PGProofs/).
 Generated once by harness/mkprops.py from harness/props_table.py + PGProperties/extra/C12.lean.in; committed as source.
 -/
+import PGProofs.DemePerm
+import PGProofs.Conservation
 import PGProofs.RewardsThm
 import PGProofs.SampleConsistency
 import PGProofs.Marginal
@@ -28,6 +30,18 @@ set_option pp.fieldNotation.generalized false
 
 namespace PG.C12
 open PG
+
+/-- covariances of parts sum to the variance of the total -/
+theorem cov_sum : ∀ {K : Type} [inst : Field K] [inst_1 : LinearOrder K] [inst_2 : IsStrictOrderedRing K] {ι : Type} [inst_3 : Fintype ι] [inst_4 : DecidableEq ι] {J : Type} [DecidableEq J] (L : ExpLaw K) (S : ℕ → Matrix ι ι K) (s : Finset J) (r : J → ι → K) (α : ι → K) (fs : List (ℕ × K)), ∑ j ∈ s, ∑ j' ∈ s, Conservation.covVal L S (r j) (r j') α fs = Conservation.covVal L S (fun i ↦ ∑ j ∈ s, r j i) (fun i ↦ ∑ j ∈ s, r j i) α fs := @PG.Conservation.sum_cov
+
+/-- covariance is bilinear over weighted finite sums -/
+theorem cov_bilinear : ∀ {K : Type} [inst : Field K] [inst_1 : LinearOrder K] [inst_2 : IsStrictOrderedRing K] {ι : Type} [inst_3 : Fintype ι] [inst_4 : DecidableEq ι] {J : Type} [DecidableEq J] (L : ExpLaw K) {J' : Type} [DecidableEq J'] (S : ℕ → Matrix ι ι K) (s : Finset J) (t : Finset J') (w : J → K) (w' : J' → K) (r : J → ι → K) (r' : J' → ι → K) (α : ι → K) (fs : List (ℕ × K)), Conservation.covVal L S (fun i ↦ ∑ j ∈ s, w j * r j i) (fun i ↦ ∑ j' ∈ t, w' j' * r' j' i) α fs = ∑ j ∈ s, ∑ j' ∈ t, w j * w' j' * Conservation.covVal L S (r j) (r' j') α fs := @PG.Conservation.covVal_bilinear
+
+/-- any pointwise linear identity between rewards passes to means -/
+theorem mean_transfer : type_of% @PG.Conservation.mean_of_pointwise := @PG.Conservation.mean_of_pointwise   -- (printed statement does not re-elaborate; see the source lemma)
+
+/-- and to covariances -/
+theorem cov_transfer : ∀ {K : Type} [inst : Field K] [inst_1 : LinearOrder K] [inst_2 : IsStrictOrderedRing K] {ι : Type} [inst_3 : Fintype ι] [inst_4 : DecidableEq ι] {J : Type} [DecidableEq J] {J' : Type} [DecidableEq J'] (L : ExpLaw K) (S : ℕ → Matrix ι ι K) (s : Finset J) (t : Finset J') (w : J → K) (w' : J' → K) (r : J → ι → K) (r' : J' → ι → K), (∀ (i : ι), ∑ j ∈ s, w j * r j i = ∑ j' ∈ t, w' j' * r' j' i) → ∀ (α : ι → K) (fs : List (ℕ × K)), ∑ j ∈ s, ∑ j₂ ∈ s, w j * w j₂ * Conservation.covVal L S (r j) (r j₂) α fs = ∑ j' ∈ t, ∑ j₂' ∈ t, w' j' * w' j₂' * Conservation.covVal L S (r' j') (r' j₂') α fs := @PG.Conservation.cov_of_pointwise
 
 /-- sum over demes of the deme reward is 1 -/
 theorem deme_sum_one : ∀ (n : ℕ) (s : State) (D : ℕ), 0 < State.total s → (∀ l < State.nLoci s, List.length (List.getD s.lin l []) = D) → ∑ d ∈ Finset.range D, Reward.eval n s (Reward.deme d) = 1 := @PG.deme_rewards_sum_one
@@ -49,6 +63,10 @@ theorem unreachable_states_irrelevant : ∀ {K : Type} [inst : Field K] [inst_1 
 
 end PG.C12
 
+#print axioms PG.C12.cov_sum
+#print axioms PG.C12.cov_bilinear
+#print axioms PG.C12.mean_transfer
+#print axioms PG.C12.cov_transfer
 #print axioms PG.C12.deme_sum_one
 #print axioms PG.C12.deme_product_decomposes
 #print axioms PG.C12.loci_sum
